@@ -119,5 +119,20 @@ REGISTRY["C12"] = dict(
          "threshold code; the real bm25() on z3 Reals is bounded by its value at (max weight, min length) over the documented domain.",
     note=_BOUNDED)
 
+REGISTRY["C14"] = dict(
+    modules=["harness.c14_views"],
+    technique="CrossHair symbolic view-specification codes (sort keys, facets, collapse, filter/mask kinds, page arithmetic) over the real sorting/collector code vs python sorted()/set algebra on the corpus model",
+    text="Every sort specification, facet, collapse setting, filter/mask representation and page (total, page number, page length) chosen by "
+         "symbolic codes is run through the real search pipeline on one-segment, multi-segment-with-deletion and column-less-segment layouts "
+         "and must equal the oracle computed from the corpus model.",
+    note=_BOUNDED + "  Known finding KF-C14-1 (len of collapsed results) is not asserted and witnessed separately.")
+REGISTRY["C19"] = dict(
+    modules=["harness.c19_fuzzy"],
+    technique="CrossHair symbolic word/distance/prefix codes over the real distance functions, Levenshtein automaton, term cursors, FuzzyTerm and correctors vs an independent edit-distance definition",
+    text="All word pairs up to the length bound over a 3-letter alphabet are pushed through the real distance functions; every query word, "
+         "distance and prefix through terms_within, FuzzyTerm and suggest on one- and three-segment indexes of a confusable lexicon; results "
+         "must be exactly the terms within the distance (Levenshtein on single segments / fuzzy queries per KF-C19-3, Damerau otherwise).",
+    note=_BOUNDED + "  Known findings KF-C19-1..4 are encoded as the asserted behaviour or skipped, and witnessed separately.")
+
 _PENDING = "check not built yet in this round (work in progress; see DESIGN.md section 4)"
 NOT_APPLICABLE = {("C%02d" % i): _PENDING for i in range(1, 21) if ("C%02d" % i) not in REGISTRY}
